@@ -151,6 +151,19 @@ pub fn gen_text(r: &mut Rng, ascii_lf: bool) -> String {
 }
 
 /// every (line, character) of the text: definition / prepare-rename act exactly inside link spans
+thread_local! {
+    /// also judge the prepare-rename range of links that span lines (finding D42's witness)
+    static MULTILINE_RANGES: std::cell::Cell<bool> = std::cell::Cell::new(false);
+}
+
+/// `check_text` including the rename range of links whose source spans lines
+pub fn multiline_rename_range(text: &str) -> Option<String> {
+    MULTILINE_RANGES.with(|m| m.set(true));
+    let r = check_text(text);
+    MULTILINE_RANGES.with(|m| m.set(false));
+    r
+}
+
 pub fn check_text(text: &str) -> Option<String> {
     let mut lib = act::Lib::new();
     lib.insert("a".to_string(), text.to_string());
@@ -186,7 +199,8 @@ pub fn check_text(text: &str) -> Option<String> {
                     if placeholder != &s.dest {
                         return Some(format!("prepare-rename at {}:{}: placeholder {:?}, link destination {:?}", line, ch, placeholder, s.dest));
                     }
-                    if s.regular {
+                    // (a link whose source wraps over a line break: finding D42, judged by `multiline_rename_range`)
+                    if s.regular && (!text[s.start..s.end].contains('\n') || MULTILINE_RANGES.with(|m| m.get())) {
                         // the range must be the destination: `[text](dest)` ends with `dest)`
                         let dest_start = s.end - 1 - s.dest.len();
                         let (a, b) = (lsp_pos(text, dest_start), lsp_pos(text, s.end - 1));
@@ -308,12 +322,35 @@ pub fn run(ctx: &Ctx, model: &mut Model, rep: &mut Report) {
     for f in known::open(ctx, "C13") {
         rep.evaluations += 1;
         open.push(f.id.clone());
-        match check_text(f.witness["text"].as_str().unwrap_or("")) {
+        let wt = f.witness["text"].as_str().unwrap_or("");
+        match if f.id == "D42" { multiline_rename_range(wt) } else { check_text(wt) } {
             Some(w) => rep.known_findings.push(json!({"id": f.id, "what": format!("{} — witness still fails: {}", f.what, w)})),
             None => rep.resolved_findings.push(json!({"id": f.id, "what": f.what})),
         }
     }
     let d14 = open.iter().any(|o| o == "D14");
+    // links whose source wraps over a line break (the generated texts keep every paragraph on one line because of
+    // findings D8 / D33): every position of every line, in every loading mode
+    for (k, t) in [
+        "see [the wrapped\ntitle](n1) for details\n\nnext paragraph\n",
+        "# H\n\ntext before [a link text that\nwraps over\nthree lines](n2) and after it [one](n3)\n\nclosing\n",
+        "> quoted [wrapped\n> link](n1) here\n\nafter\n",
+        "intro\n\n[block\nreference](n2)\n\nend\n",
+        "a [first](n1) b [second\nwrapped](n2) c [third](n3)\n\nlast\n",
+    ]
+    .iter()
+    .enumerate()
+    {
+        for m in 0..6u64 {
+            let via = act::via_for(m);
+            rep.evaluations += 1;
+            rep.count("wrapped_link_cases");
+            if let Some(w) = act::with_via(via, || check_text(t)) {
+                rep.fail(json!({"kind": "position", "text": t, "via": format!("{:?}", via), "what": format!("wrapped link text {}: {}", k, w)}));
+                break;
+            }
+        }
+    }
     let n = if ctx.thorough { 3000 } else { 1000 };
     for i in 0..n {
         let mut r = Rng::for_case(ctx.seed ^ 0xC13, i as u64);
